@@ -108,7 +108,17 @@ def registrations(idx: ProgramIndex, cls: ClassInfo) -> List[Tuple[str, str, Fun
                 val = get_arg(c, 1, "parameter" if c.func.attr == "register_parameter" else "tensor")
                 name = const_str(nm) if nm is not None else None
                 if name is None:
-                    name = src(nm) if nm is not None else "?"
+                    # a computed name: keyed by its shape, with local variables (not parameters) anonymised, so that renaming a
+                    # loop variable does not change the instance key
+                    if nm is not None:
+                        import copy
+                        t = copy.deepcopy(nm)
+                        for x in ast.walk(t):
+                            if isinstance(x, ast.Name) and x.id not in m.params and x.id not in ("str", "int", "repr", "format"):
+                                x.id = "_"
+                        name = src(t)
+                    else:
+                        name = "?"
                 verdict = tensor_prefix(val, env) if val is not None else "unknown"
                 out.append(("parameter" if c.func.attr == "register_parameter" else "buffer", name, m, c, verdict))
         for n in ast.walk(m.node):
